@@ -175,7 +175,7 @@ def run_case(case):
                 g = got[name].detach().cpu().numpy()
                 if g.shape != (len(mid), len(ids)):
                     return result(False, sig=f"shape|{name}", msg=f"{label}: {name} has shape {g.shape}, expected {(len(mid), len(ids))}", outcome="shape")
-                if np.abs(g.imag).max() > 0:
+                if not np.abs(g.imag).max() <= 0:  # NaN fails
                     return result(False, sig=f"imag|{name}", msg=f"{label}: {name} has an imaginary part", outcome="imag")
                 g = g.real
                 chk += float(np.abs(g).sum())
@@ -197,7 +197,7 @@ def run_case(case):
                     err = np.abs(g[:, k] - exp)
                     scale = max(1.0, float(np.abs(y).max()))
                     worst = max(worst, float(err.max() / scale))
-                    if err.max() > 1e-9 * scale:
+                    if not err.max() <= 1e-9 * scale:  # NaN fails
                         r = int(err.argmax())
                         return result(
                             False,
